@@ -41,7 +41,7 @@ def replay_policies(ctx, obligation, role, pols, why):
 
 def loop_step(ctx):
     P = ctx.prog('core')
-    f = P.find_one(r'is_authorized_core_internal$', 'authorizer.rs')
+    f = P.method('authorizer.rs', 'is_authorized_core_internal')
     ctx.use(f)
     ex = ctx.new_exec('core')
     head = f.find_block(r'as Iterator>::next\(')
@@ -147,7 +147,7 @@ def loop_step(ctx):
 
 def pr_new(ctx):
     P = ctx.prog('core')
-    f = P.find_one(r'partial_response\.rs[^>]*>::new$', 'partial_response.rs')
+    f = P.method('authorizer/partial_response.rs', 'new', nargs=8)
     ctx.use(f)
     ex = ctx.new_exec('core')
     iteralg.install(ex)
@@ -228,7 +228,7 @@ def bucket_elem(ids):
 
 def response_from(ctx):
     P = ctx.prog('core')
-    f = P.find_one(r'partial_response\.rs:4\d\d[^>]*>::from$', 'partial_response.rs')
+    f = P.method('authorizer/partial_response.rs', 'from', nargs=1, arg0=r'PartialResponse$')
     ctx.use(f)
     ex = ctx.new_exec('core')
     iteralg.install(ex, [(r'Response::new$', 'Response::new')])
@@ -261,7 +261,10 @@ def response_from(ctx):
         want_sf = z3.Not(e_sf)
         for e in rel:
             key = ids[e.bucket][0]
-            claims.append(z3.BoolVal(getattr(e.val, 'id', None) == key.id))      # what is reported is the element's own id
+            v = e.val
+            if isinstance(v, Ref):
+                v = ex.read(e.st, v.fid, v.place)
+            claims.append(z3.BoolVal(getattr(v, 'id', None) == key.id))      # what is reported is the element's own id
         for bname in FIELDS[:6]:
             incl = z3.Or([z3.And(e.guard) if e.guard else z3.BoolVal(True) for e in rel if e.bucket == bname] or [z3.BoolVal(False)])
             if bname == 'satisfied_forbids':
